@@ -451,6 +451,75 @@ void add_wide(mc::Main& m, std::vector<std::string> tiers)
     });
 }
 
+// longer, fixed strings (the statement's "randomised longer strings", replaced by an enumerated family): the haystack is
+// every prefix of a 14-character pattern with many overlapping repeats, the needle every substring of the pattern up to
+// length 5; positions as in the short sweep.  Reaches multi-match, overlapping-match and long-partial-match situations
+// that strings of length <= 4 cannot contain.
+template <typename Char>
+void add_long(mc::Main& m, std::vector<std::string> tiers)
+{
+    m.job(cat(cname<Char>(), "/long-pattern"), tiers, [=](mc::Reporter& r) {
+        using EV              = etl::basic_string_view<Char>;
+        using SV              = std::basic_string_view<Char>;
+        char const* pattern   = "aababbaabbabab";
+        std::size_t const PL  = 14;
+        constexpr auto npos   = std::size_t(-1);
+        std::uint64_t evals = 0, nontrivial = 0;
+        std::basic_string<Char> pat;
+        for (std::size_t i = 0; i < PL; ++i) { pat.push_back(Char(pattern[i])); }
+        for (std::size_t hl = 6; hl <= PL; ++hl) {
+            for (std::size_t ho = 0; ho + hl <= PL && ho < 3; ++ho) {
+                mc::GuardedBlock<Char> hb(hl);
+                std::copy(pat.begin() + long(ho), pat.begin() + long(ho + hl), hb.data());
+                std::basic_string<Char> hs(pat, ho, hl);
+                EV const eh{hb.data(), hl};
+                SV const sh{hs};
+                for (std::size_t no = 0; no < PL; ++no) {
+                    for (std::size_t nl = 1; nl <= 5 && no + nl <= PL; ++nl) {
+                        mc::GuardedBlock<Char> nb(nl);
+                        std::copy(pat.begin() + long(no), pat.begin() + long(no + nl), nb.data());
+                        std::basic_string<Char> ns(pat, no, nl);
+                        EV const en{nb.data(), nl};
+                        SV const sn{ns};
+                        for (std::size_t pos = 0; pos <= hl + 1; ++pos) {
+                            std::size_t const p = pos == hl + 1 ? npos : pos;
+                            auto kase = [&] { return cat(cname<Char>(), " hay=", show(hs), " needle=", show(ns), " pos=", show_pos(p)); };
+                            auto cmp  = [&](char const* subj, auto got, auto want) {
+                                ++evals;
+                                if (!(got == want)) { r.violation("C08", cat("basic_string_view::", subj), "long_pattern", kase(), cat("tetl=", got, " std=", want)); }
+                            };
+                            auto const w = sh.find(sn, p);
+                            if (w != npos) { ++nontrivial; }
+                            cmp("find(sv,pos)", eh.find(en, p), w);
+                            cmp("rfind(sv,pos)", eh.rfind(en, p), sh.rfind(sn, p));
+                            cmp("find_first_of(sv,pos)", eh.find_first_of(en, p), sh.find_first_of(sn, p));
+                            cmp("find_last_of(sv,pos)", eh.find_last_of(en, p), sh.find_last_of(sn, p));
+                            cmp("find_first_not_of(sv,pos)", eh.find_first_not_of(en, p), sh.find_first_not_of(sn, p));
+                            cmp("find_last_not_of(sv,pos)", eh.find_last_not_of(en, p), sh.find_last_not_of(sn, p));
+                        }
+                        ++evals;
+                        if (eh.starts_with(en) != sh.starts_with(sn) || eh.ends_with(en) != sh.ends_with(sn) || eh.contains(en) != (sh.find(sn) != npos)
+                            || sign(eh.compare(en)) != sign(sh.compare(sn))) {
+                            r.violation("C08", "basic_string_view::starts_with/ends_with/contains/compare", "long_pattern",
+                                cat(cname<Char>(), " hay=", show(hs), " needle=", show(ns)), "differs from std");
+                        }
+                        auto const now = mc::san_hits();
+                        static std::uint64_t san = 0;
+                        if (now != san) {
+                            san = now;
+                            r.violation("C02", "basic_string_view::<long pattern searches>", "long_pattern", cat(cname<Char>(), " hay=", show(hs), " needle=", show(ns)),
+                                "ASan/UBSan report (see job log)");
+                        }
+                    }
+                }
+            }
+        }
+        r.sample(cat(cname<Char>(), " hay=prefixes of \"", pattern, "\" (length 6..14, offsets 0..2), needle=every substring of length 1..5, pos=0..len,npos"));
+        r.count("evaluations", evals);
+        r.count("distinct_nontrivial", nontrivial);
+    });
+}
+
 } // namespace
 
 int main(int argc, char** argv)
@@ -467,6 +536,8 @@ int main(int argc, char** argv)
     add_wide<char16_t>(m, both);
     add_wide<char32_t>(m, both);
     add_wide<wchar_t>(m, both);
+    add_long<char>(m, both);
+    add_long<char16_t>(m, both);
     add<char>(m, th, 8, 5, false);
     add<char>(m, th, 6, 4, false);
     add<char>(m, th, 5, 4, true);
